@@ -3,9 +3,9 @@ From Jawk Require Import Base F64 Json Reader Ctx Printer Fn Expr Chain ExprPars
 From Coq Require Import Lia.
 Local Open Scope N_scope.
 
-Notation stage := (Chain.stage expr).
-Notation wfp := (ChainProofs.wfp expr).
-Notation nb := (ChainProofs.nb expr).
+Local Notation stage := (Chain.stage expr).
+Local Notation wfp := (ChainProofs.wfp expr).
+Local Notation nb := (ChainProofs.nb expr).
 
 Definition pass (s : stage) : Prop :=
   match s with SPreSet _ _ | SSplit _ | SFilter _ | SSelect _ _ | SUniq => True | _ => False end.
